@@ -137,7 +137,7 @@ fn fixed_spec(kinds: &[usize]) -> SetSpec {
 fn large_case(n: usize, stride: usize) -> SetCase {
     SetCase {
         spec: SetSpec {
-            rules: (0..n).map(|i| (format!("{}-rule-{i}", UNSORTED[i % UNSORTED.len()]), rule_of_kind((i * stride + i / 15) % RULE_KINDS, i as i128 + 1))).collect(),
+            rules: (0..n).map(|i| (format!("{}-rule-{i}", UNSORTED[i % UNSORTED.len()]), rule_of_kind((i * stride + i / RULE_KINDS) % RULE_KINDS, i as i128 + 1))).collect(),
             fns: standard_fns(),
             symbols: standard_symbols(),
             suspend: 0,
@@ -222,7 +222,7 @@ pub fn run(ctx: &Ctx) {
         true,
         |i, acc| {
             let kinds = decode(i);
-            let nt = kinds.len() >= 2 && kinds[..kinds.len() - 1].iter().any(|k| (1..=13).contains(k));
+            let nt = kinds.len() >= 2 && kinds[..kinds.len() - 1].iter().any(|k| (1..=13).contains(k) || *k == 15);
             acc.cell(&format!("small:{}rules", kinds.len()), nt);
             let case = SetCase { spec: fixed_spec(&kinds), inputs: vec![facts.clone()] };
             if nt && i % 977 == 0 {
